@@ -17,6 +17,7 @@ import (
 	"sort"
 	"strings"
 	"testing"
+	"time"
 
 	"github.com/folbricht/desync"
 	"pgregory.net/rapid"
@@ -811,6 +812,8 @@ var spec = &hx.Spec[Case]{
 		"store-history:overwrite:empty", "store-history:overwrite:different-params", "store-history:interleaved-names"},
 	Gen: genCase,
 	Run: run,
+	// a case that never returns is a verdict (confirmed by a replay in a fresh process), not a timeout of the run
+	Watchdog: hx.Pick(120*time.Second, 300*time.Second),
 }
 
 func TestMain(m *testing.M) {
